@@ -66,7 +66,8 @@ def eval_arms(src):
     if not mm:
         raise EncodingError("eval_rec has no `match self`")
     mend = balanced(body, mm.end() - 1)
-    arms_txt = body[mm.end():mend - 1]
+    arms_txt = re.sub(r"(?m)^\s*//[^\n]*\n", "", body[mm.end():mend - 1])
+    arms_txt = re.sub(r"(?m)(?<=[,;{}])\s*//[^\n]*$", "", arms_txt)
     # split at top-level `Expr::Variant(...) =>`
     heads = [(x.start(), x.group(1), x.group(2)) for x in re.finditer(r"(?m)^\s*Expr::(\w+)\(([^)]*)\)\s*=>", arms_txt)]
     arms = {}
@@ -84,3 +85,115 @@ def eval_arms(src):
     if len(arms) < 40:
         raise EncodingError(f"only {len(arms)} eval_rec arms recognised")
     return arms
+
+
+# ------------------------------------------------------------------------------------------------------------
+def display_templates(expr_src):
+    """Templates of `impl Display for Expr`, read from the source text.
+
+    Returns (templates, helpers):
+      templates[Variant] = list of pieces: ("lit", text) | ("child", field_index, wrapper or None) | ("tok", field_index)
+                           | ("list", field_index, sep) | ("maplist", field_index, sep, kvsep)
+      helpers[name] = set of variants that the helper method wraps in parentheses (`format!("({self})")`)
+    """
+    helpers = {}
+    for m in re.finditer(r"fn (\w+)\(&self\)\s*->\s*String\s*\{\s*match self\s*\{(.*?)\n\s*\}\s*\}", expr_src, re.S):
+        name, body = m.group(1), m.group(2)
+        arms = re.findall(r"((?:Expr::\w+\([^)]*\)\s*\|?\s*)+)=>\s*(?:\{\s*)?format!\(\"\(\{self\}\)\"\)", body, re.S)
+        rest = re.search(r"_\s*=>\s*self\.to_string\(\)", body)
+        if arms and rest:
+            vs = set()
+            for a in arms:
+                vs |= set(re.findall(r"Expr::(\w+)", a))
+            helpers[name] = vs
+    m = re.search(r"impl Display for Expr\s*\{", expr_src)
+    if not m:
+        raise EncodingError("impl Display for Expr not found")
+    end = balanced(expr_src, m.end() - 1)
+    body = expr_src[m.end():end]
+    mm = re.search(r"match self\s*\{", body)
+    mend = balanced(body, mm.end() - 1)
+    arms_txt = re.sub(r"(?m)^\s*//[^\n]*\n", "", body[mm.end():mend - 1])
+    arms_txt = re.sub(r"(?m)(?<=[,;{}])\s*//[^\n]*$", "", arms_txt)
+    heads = [(x.start(), x.group(1), x.group(2)) for x in re.finditer(r"(?m)^\s*Expr::(\w+)\(([^)]*)\)\s*=>", arms_txt)]
+    templates = {}
+    for idx, (pos, variant, binds) in enumerate(heads):
+        endp = heads[idx + 1][0] if idx + 1 < len(heads) else len(arms_txt)
+        text = arms_txt[pos:endp]
+        fields = [b.strip() for b in binds.split(",") if b.strip()]
+        templates[variant] = parse_write(text, fields, helpers)
+    if len(templates) < 40:
+        raise EncodingError(f"only {len(templates)} Display arms recognised")
+    return templates, helpers
+
+
+def parse_write(text, fields, helpers):
+    w = re.search(r"write!\(\s*formatter\s*,\s*\"((?:[^\"\\]|\\.)*)\"\s*(?:,(.*))?\)\s*[,}]?\s*\}?\s*,?\s*$", text.strip(), re.S)
+    if not w:
+        raise EncodingError(f"Display arm not understood: {text.strip()[:120]}")
+    fmt = w.group(1).encode().decode("unicode_escape")
+    args_txt = w.group(2) or ""
+    args = []
+    depth, cur = 0, []
+    for c in args_txt:
+        if c in "([{":
+            depth += 1
+        elif c in ")]}":
+            depth -= 1
+        if c == "," and depth == 0:
+            args.append("".join(cur).strip())
+            cur = []
+        else:
+            cur.append(c)
+    if "".join(cur).strip():
+        args.append("".join(cur).strip())
+    pieces = []
+    ai = 0
+    i = 0
+    lit = []
+
+    def flush():
+        if lit:
+            pieces.append(("lit", "".join(lit)))
+            lit.clear()
+    while i < len(fmt):
+        c = fmt[i]
+        if c == "{" and fmt[i + 1:i + 2] == "{":
+            lit.append("{")
+            i += 2
+        elif c == "}" and fmt[i + 1:i + 2] == "}":
+            lit.append("}")
+            i += 2
+        elif c == "{":
+            j = fmt.index("}", i)
+            name = fmt[i + 1:j]
+            flush()
+            if name == "":
+                if ai >= len(args):
+                    raise EncodingError("format string has more placeholders than arguments")
+                pieces.append(arg_piece(args[ai], fields, helpers))
+                ai += 1
+            else:
+                if name not in fields:
+                    raise EncodingError(f"placeholder {{{name}}} is not a field of the arm")
+                pieces.append(("child", fields.index(name), None))
+            i = j + 1
+        else:
+            lit.append(c)
+            i += 1
+    flush()
+    return pieces
+
+
+def arg_piece(arg, fields, helpers):
+    arg = re.sub(r"\s+", " ", arg.strip())
+    m = re.match(r"^(\w+)\.(\w+)\(\)$", arg)
+    if m and m.group(1) in fields and m.group(2) in helpers:
+        return ("child", fields.index(m.group(1)), m.group(2))
+    m = re.match(r"^(\w+)\.iter\(\)\.map\(ToString::to_string\)\.join\(\"((?:[^\"\\]|\\.)*)\"\)$", arg)
+    if m and m.group(1) in fields:
+        return ("list", fields.index(m.group(1)), m.group(2))
+    m = re.match(r"^(\w+) ?\.iter\(\) ?\.map\(\|\((\w+), (\w+)\)\| format!\(\"\{(\w+)\}((?:[^\"{}\\]|\\.)*)\{(\w+)\}\"\)\) ?\.join\(\"((?:[^\"\\]|\\.)*)\"\)$", arg)
+    if m and m.group(1) in fields and m.group(4) == m.group(2) and m.group(6) == m.group(3):
+        return ("maplist", fields.index(m.group(1)), m.group(7), m.group(5))
+    raise EncodingError(f"Display argument not understood: {arg}")
